@@ -125,6 +125,23 @@ class RealDiff:
     def final_left(self):
         return xt.from_lxml(self.differ.left)
 
+    def reuse(self):
+        """The same Differ asked again about the same tree objects, after its script was consumed:
+        diff(L, R), then match(L, R).  Returns (the left copy the second matching is over, the match
+        list as pre-order positions, the second script)."""
+        d = self.differ
+        # diff(L, R) straight after the consumed diff(): nothing else has reset the instance in between
+        s2 = list(d.diff(self.L, self.R))
+        m2 = d.match(self.L, self.R)
+        self.keep.append(m2)
+        left2 = xt.from_lxml(d.left)
+        lnodes2 = list(d.left.iter())
+        self.keep.append(lnodes2)
+        lpos = {id(n): i for i, n in enumerate(lnodes2)}
+        rpos = {id(n): i for i, n in enumerate(self.rnodes)}
+        pairs = [(lpos.get(id(a)), rpos.get(id(b))) for a, b, _ in m2]
+        return left2, pairs, s2
+
 
 def real_patch(actions, Lp):
     """main.patch_tree on a tree built from Lp. Returns ('ok', PNode) or ('err', class, site)."""
